@@ -119,6 +119,14 @@ Definition applies (a : overwrite_args) (r : frule) (f : ffile) : bool :=
 (* exit status: non-zero iff some (unsuppressed) finding belongs to a rule of effective severity error *)
 Definition exit_nonzero (findings : list frule) : bool := existsb (fun r => sev_eqb (fr_sev r) SError) findings.
 
+(* ---- SgLang::from_path: the language configured by languageGlobs for the path, else a custom language
+        registered for its extension, else the builtin extension table ---- *)
+Definition from_path (glob_lang custom_lang builtin_lang : option N) : option N :=
+  match glob_lang with
+  | Some l => Some l
+  | None => match custom_lang with Some l => Some l | None => builtin_lang end
+  end.
+
 (* ---- language detection over the generated extension table ---- *)
 Fixpoint from_extension_in (tbl : list (list N * list (list N))) (ext : list N) : option (list N) :=
   match tbl with
